@@ -3,9 +3,9 @@
    radix50_literal), over the TABLE regenerated from the source (Gen/GenRadix50.v).
    No proofs here.  Code points are N; codes, words and bytes are Z.
 
-   Python's str.upper() is not modelled: it is the Section variable [upper : N -> list N]
-   (one character may upper-case to several: U+FB06 -> "ST").  [ascii_upper] is the instance for
-   code points below 128; for the others the sweeps pass Python's own answer (an oracle). *)
+   '.rad50' refuses every non-ASCII character before it looks at str.upper() (char.isascii(), since
+   aa9a583) and '^R' only matches ASCII characters, so str.upper() is only ever applied to ASCII
+   characters, where it is [ascii_up]: a..z -> A..Z, everything else unchanged. *)
 From Coq Require Import String List ZArith NArith Bool.
 Notation length := Datatypes.length.
 From Verif Require Import Base.Res Base.Bytes Gen.GenRadix50.
@@ -15,7 +15,9 @@ Open Scope Z_scope.
 
 Section Rad50.
 Variable table : list N.           (* radix50.TABLE *)
-Variable upper : N -> list N.      (* str.upper() of a one-character string *)
+
+(* str.upper() of an ASCII character *)
+Definition ascii_up (c : N) : N := if ((97 <=? c) && (c <=? 122))%N then (c - 32)%N else c.
 
 (* TABLE.index(ch) for a one-character string: first position, None = ValueError *)
 Fixpoint index_from (i : Z) (t : list N) (ch : N) : option Z :=
@@ -48,15 +50,15 @@ Definition pack_to_int (s : list N) : res Z :=
    resolved) or <expr> with the integer the expression evaluated to *)
 Inductive chunk := Str (s : list N) | Code (n : Z).
 
-(* one character of a string chunk: (code appended, error reported?) *)
+(* one character of a string chunk: (code appended, error reported?)
+     if not char.isascii(): raise ValueError(char)
+     val = radix50.TABLE.index(char.upper())        except ValueError: report, val = 0 *)
 Definition char_code (ch : N) : Z * bool :=
-  match upper ch with
-  | [u] => match index_of u with
-           | Some i => (i, false)
-           | None => (0, true)              (* ValueError from TABLE.index *)
-           end
-  | _ => (0, true)                          (* len(char.upper()) != 1 -> ValueError *)
-  end.
+  if (128 <=? ch)%N then (0, true)
+  else match index_of (ascii_up ch) with
+       | Some i => (i, false)
+       | None => (0, true)
+       end.
 
 (* <n>: get_as_int(bitness=None, unsigned=True, default=0), then 'if val >= 40' *)
 Definition angle_code (n : Z) : Z * bool :=
@@ -123,7 +125,7 @@ Definition literal (text : list N) : res Z :=
   let m := take_while lit_class text in
   let es := err_if (match m with [] => true | _ => false end) "invalid-string"
             ++ err_if (Nat.ltb 3 (length m)) "invalid-string" in
-  do v <- pack_to_int (flat_map upper (firstn 3 m));
+  do v <- pack_to_int (map ascii_up (firstn 3 m));
   match es with
   | [] => Ok v
   | _ => Err es
@@ -134,11 +136,8 @@ Definition literal_consumed (text : list N) : nat := length (take_while lit_clas
 
 End Rad50.
 
-(* str.upper() on ASCII *)
-Definition ascii_upper (c : N) : list N := [if ((97 <=? c) && (c <=? 122))%N then (c - 32)%N else c].
-
-Definition rad50_ascii := rad50 rad50_table ascii_upper.
-Definition literal_ascii := literal rad50_table ascii_upper.
+Definition rad50_ascii := rad50 rad50_table.
+Definition literal_ascii := literal rad50_table.
 
 (* the 16-bit words of an even-length little-endian byte string *)
 Fixpoint words_of_bytes (bs : list Z) : list Z :=
